@@ -54,9 +54,20 @@ INF_ELEM = {
 }
 
 
+# an element whose only ring / line / polygon has no vertex at all has no finite coordinate either ([[]], [[[]]])
+NEST_ELEM = {"multiline": ((),), "polygon": ((),), "multipolygon": (((),),)}
+
+
+def inert_menu(kind):
+    types = INERT_TYPES.get(kind, INERT_TYPES["default"])
+    return types + ("I",) + (("X",) if kind in NEST_ELEM else ())
+
+
 def inert_elem(t, kind=None):
     if t == "I":
         return INF_ELEM[kind]
+    if t == "X":
+        return NEST_ELEM[kind]
     return None if t == "M" else ()        # () = empty list; for points () becomes (NaN, NaN)
 
 
@@ -77,7 +88,8 @@ def build(kind, Ln, pos, filling):
     vi = 0
     for i in range(Ln):
         if i in pos:
-            t = types[0] if filling == 0 else (types + ("I",))[(pos.index(i) + 1 + Ln) % 3]
+            menu = inert_menu(kind)
+            t = types[0] if filling == 0 else menu[(pos.index(i) + 1 + Ln) % len(menu)]
             elems.append(inert_elem(t, kind))
             ids.append(100 + i)
         else:
@@ -102,7 +114,7 @@ def check_frame(col, scratch, kind, elems, ids, label, dask_too=True, deep=True,
     valid_pos = [i for i, r in enumerate(ids) if r < 100]
     inert_pos = [i for i, r in enumerate(ids) if r >= 100]
     missing_pos = [i for i in inert_pos if elems[i] is None]
-    case = {"kind": kind, "ids": ids, "inert": ["M" if elems[i] is None else ("E" if elems[i] == () else "I") for i in inert_pos], "label": label}
+    case = {"kind": kind, "ids": ids, "inert": ["M" if elems[i] is None else ("E" if elems[i] == () else ("X" if elems[i] == NEST_ELEM.get(kind) else "I")) for i in inert_pos], "label": label}
     if pre:
         # the array under test is the slice [len(pre):] of a longer array (non-zero buffer / bitmap offsets)
         arr = L.make_array(kind, list(pre) + list(elems), "float64")[len(pre):]
@@ -324,7 +336,7 @@ def run(ctx):
         if filling == "special":
             types = INERT_TYPES.get(kind, INERT_TYPES["default"])
             # all rows inert; a single inert row; inert rows only at both ends of a longer array
-            for t in types + ("I",):
+            for t in inert_menu(kind):
                 check_frame(col, scratch, kind, [inert_elem(t, kind)] * 3, [100, 101, 102], f"all_inert:{t}")
                 check_frame(col, scratch, kind, [inert_elem(t, kind)], [100], f"single_inert:{t}", deep=False)
             el = [None, ()] + BASE[kind] + BASE[kind][::-1] + [(), None]
@@ -336,7 +348,7 @@ def run(ctx):
             el = [base3[i % 3] for i in range(20)]
             ids = list(range(20))
             for k, i in enumerate((1, 7, 8, 10, 15, 18)):
-                el[i] = inert_elem((types + ("I",))[k % 3], kind)
+                el[i] = inert_elem(inert_menu(kind)[k % len(inert_menu(kind))], kind)
                 ids[i] = 100 + i
             check_frame(col, scratch, kind, el, ids, "long20", deep=False)
             for off in (8, 16):
@@ -361,7 +373,7 @@ def run(ctx):
 def replay(ctx, case):
     col = core.Collector()
     kind, ids = case["kind"], case["ids"]
-    types = {"M": None, "E": (), "I": INF_ELEM[kind]}
+    types = {"M": None, "E": (), "I": INF_ELEM[kind], "X": NEST_ELEM.get(kind)}
     it = iter(case["inert"])
     elems = []
     seq = BASE[kind] + BASE[kind][::-1]
